@@ -110,10 +110,13 @@ def tok(v, asked=None):
 
 
 def _fn_arity(v):
+    """number of arguments the function is called with (a projection: its open slots)"""
     import klongpy.core as core
     if isinstance(v, core.KGFnWrapper):
-        return v.fn.arity
+        v = v.fn
     if isinstance(v, core.KGFn):
+        if isinstance(v.args, list) and any(a is None for a in v.args):
+            return sum(1 for a in v.args if a is None)
         return v.arity
     if isinstance(v, core.KGLambda):
         return v.get_arity()
@@ -152,9 +155,17 @@ UNIVERSE = [
 UNDEF_EXPRS = [e for e in UNIVERSE if "1%0" in e]
 
 SETUP = ["k0::{77}", "id1::{x}", "snd::{x;y}", "trd::{x;y;z}", "und1::{x;:_x}", "cnt::0", "last::0",
-         "bump::{cnt::cnt+x}", "keep::{last::x}"]
-BUILTIN_NAMES = ["k0", "id1", "snd", "trd", "und1", "pyid", "pysnd", "bump", "keep", "cnt", "last"]
-FN_ARITY = dict(k0=0, id1=1, snd=2, trd=3, und1=1, pyid=1, pysnd=2, bump=1, keep=1)
+         "bump::{cnt::cnt+x}", "keep::{last::x}",
+         # asymmetric bodies and projections of them whose fixed argument is not (only) leading
+         "sub::{x-y}", "cat::{x,y}", "tri::{x,y,z}",
+         "dec::sub(;1)", "from10::sub(10;)", 'suf::cat(;">")', 'pre::cat("<";)', "mid::tri(1;;3)",
+         "ends::tri(;2;)", "lead1::tri(7;;)", "nest::lead1(8;)", "nend::ends(;9)", "nmid::ends(5;)"]
+# name -> (arity it is called with, kind of its arguments)
+PROJ = dict(sub=(2, "i"), cat=(2, "s"), tri=(3, "i"), dec=(1, "i"), from10=(1, "i"), suf=(1, "s"), pre=(1, "s"),
+            mid=(1, "i"), ends=(2, "i"), lead1=(2, "i"), nest=(1, "i"), nend=(1, "i"), nmid=(1, "i"))
+BUILTIN_NAMES = ["k0", "id1", "snd", "trd", "und1", "pyid", "pysnd", "bump", "keep", "cnt", "last"] + list(PROJ)
+FN_ARITY = dict(k0=0, id1=1, snd=2, trd=3, und1=1, pyid=1, pysnd=2, bump=1, keep=1,
+                **{k: v[0] for k, v in PROJ.items()})
 USER_NAMES = ["foo", "bar", "baz", "k1", "k2"]
 REBIND_NAMES = ["g", "h"]                 # names re-bound to functions of different arity by text
 FN_BODIES = {0: "{77}", 1: "{x}", 2: "{x;y}", 3: "{x;y;z}"}      # model code = arity
@@ -923,6 +934,25 @@ def gen_rebind_history(rng, name, a1, a2, via1, via2, conn, how):
     return ops
 
 
+def _proj_args(rng, name):
+    n, kind = PROJ[name]
+    pool = ["5", "-3", "17", "0", "4", "100"] if kind == "i" else ['"abc"', '""', '"a"', '"hello foo"']
+    return [rng.choice(pool) for _ in range(n)]
+
+
+def gen_projection_ops(rng, name, conn):
+    """a server-side name bound to a projection (or its asymmetric base function), through every call form"""
+    ops = [dict(form="fcall", name=name, es=_proj_args(rng, name), conn=conn, style="array"),
+           dict(form="text-call", name=name, es=_proj_args(rng, name), conn=conn),
+           dict(form="proxy", name=name, es=_proj_args(rng, name), conn=conn, via="f"),
+           dict(form="proxy", name=name, es=_proj_args(rng, name), conn=conn, via="d"),
+           dict(form="sym", name=name, conn=conn),
+           dict(form="dget", name=name, conn=conn)]
+    if PROJ[name][0] == 1:
+        ops.insert(1, dict(form="fcall", name=name, es=_proj_args(rng, name), conn=conn, style="klong"))
+    return ops
+
+
 def gen_sequence(rng, length):
     ops = []
     for _ in range(length):
@@ -930,7 +960,9 @@ def gen_sequence(rng, length):
         e = rng.choice(UNIVERSE)
         r = rng.random()
         n = rng.choice(USER_NAMES)
-        if r < 0.06:
+        if r < 0.03:
+            ops.append(rng.choice(gen_projection_ops(rng, rng.choice(list(PROJ)), conn)))
+        elif r < 0.06:
             ops.append(dict(form="text-defn", name=rng.choice(REBIND_NAMES), arity=rng.randrange(4), conn=conn))
         elif r < 0.12:
             ops.append(dict(form="proxy", name=rng.choice(REBIND_NAMES), es=[rng.choice(UNIVERSE) for _ in range(3)],
@@ -1020,6 +1052,11 @@ def run_live(ctx, drv, live, singleton):
     pairs += [(u, rng.choice(UNIVERSE)) for u in UNDEF_EXPRS[: (2 if quick else 7)]]
     for e1, e2 in pairs:
         run_sequence(ctx, live, drv, gen_pair_ops(rng, e1, e2, rng.randrange(2)), singleton)
+    # names bound to projections (fixed argument not leading, nested) and their asymmetric bases
+    for name in PROJ:
+        for rep in range(1 if quick else 6):
+            ops = gen_projection_ops(rng, name, rng.randrange(2))
+            run_sequence(ctx, live, drv, ops, singleton)
     # proxies across re-binding of the remote name
     combos = [(a1, a2) for a1 in range(4) for a2 in range(4) if a1 != a2]
     if quick:
